@@ -38,7 +38,7 @@ def _table(ctx):
     os.environ['C09_TABLE'] = path
     ex = cf.ThreadPoolExecutor(max_workers=1)
     fut = ex.submit(ctx.model, 'PrecMC', 'PrecMC',
-                    ('Produce', 'LexicalPars', 'InnerGroup', 'Descend', 'Group', 'Reject'), 8)
+                    ('Produce', 'LexicalPars', 'InnerGroup', 'Descend', 'Group', 'Reject'), 8, 3600, None, True, '2g')
     rows = None
     while rows is None:
         if fut.done():
@@ -103,7 +103,7 @@ def _shard(args):
     if not traces:
         return res
     try:
-        verd, st = tlc.run_traces(dict(tab.dump(), traces=traces), module='PrecTrace', heap='3g')
+        verd, st = tlc.run_traces(dict(tab.dump(), traces=traces), module='PrecTrace', heap='1500m')
     except tlc.TLCError as e:
         res['err'] = str(e)
         return res
@@ -142,8 +142,8 @@ def _cases(ctx, rows):
     return sorted(set(cases))
 
 
-def _run_puts(ctx, cases, nproc=10):
-    nsh = max(1, min(nproc if ctx.quick else 6 * nproc, len(cases) // 200 or 1))
+def _run_puts(ctx, cases, nproc=int(os.environ.get('C09_NPROC', '10'))):
+    nsh = max(1, min(8 if ctx.quick else 6 * nproc, len(cases) // 200 or 1))
     shards = [(k + 1, cases[k::nsh]) for k in range(nsh)]
     with mp.get_context('spawn').Pool(min(nproc, nsh), maxtasksperchild=4) as pool:
         for res in pool.imap_unordered(_shard, shards):
@@ -222,3 +222,29 @@ def replay(ctx, path):
         print('verdict:', clause, klass)
     _collect(ctx, res)
     return ctx.finish()
+
+
+def selftest(ctx):
+    """Binding demonstration: corrupt one recorded field of an accepted event; TLC must reject it naming the clause."""
+    from harness import c09_drv as drv
+    from harness.proj import Tables
+    tab = Tables()
+    base = drv.put_event(tab, 'BinOp.Mult.left', 'load', 'Add', 'bare', 'one', 'src', 'replace')    # `(a1 + a2) * rr`
+    other = drv.put_event(tab, 'BinOp.Mult.left', 'load', 'Name', 'bare', 'one', 'src', 'replace')  # another post tree
+    variants = [('accepted', {}, set()),
+                ('postS := tree of a different edit', {'postS': other['postS']}, {'Regroup.at', 'Regroup.rest'}),
+                ('postS := 0 (source does not parse)', {'postS': 0}, {'Regroup.parse'}),
+                ('newS := another replacement', {'newS': other['newS']}, {'Regroup.at', 'Regroup.rest'}),
+                ('outerPars := 0 (child not parenthesised)', {'outerPars': 0}, {'ParsWhenNeeded'}),
+                ('ctxSub := false (a token of another operand vanished)', {'ctxSub': False}, {'NeededParsKept'}),
+                ('outcome := raise', {'outcome': 'raise'}, {'Carried'})]
+    traces = []
+    for n, (_, patch, _) in enumerate(variants):
+        traces.append({'id': n + 1, 'steps': [dict({k: base[k] for k in TLC_FIELDS}, **patch)]})
+    verd = ctx.validate(dict(tab.dump(), traces=traces), module='PrecTrace', heap='1500m')
+    ok = True
+    for n, (name, _, want) in enumerate(variants):
+        got = {c for _, c, _ in verd[n + 1]['bad']}
+        print(f'selftest {name}: rejected clauses {sorted(got)} expected {sorted(want)}', 'OK' if got == want else 'MISMATCH')
+        ok &= got == want
+    return 0 if ok else 2
